@@ -74,4 +74,8 @@ theorem c20_all_accounted (l : Ledger) (h : LedgerOK l) (hd : l.held = []) (x : 
 example : (([OwnOp.set, .cloneOut, .setSkipped, .take, .intoShared, .dropState].foldl Ledger.step Ledger.init)
     = { next := 5, held := [], caller := [0, 2, 1], destroyed := [3, 4] }) := by decide
 
+/-- the hypothesis of `c20_held_one` is satisfiable by real histories (and not by every list) -/
+example : admissible [OwnOp.set, .cloneOut, .take, .intoShared, .dropState] = true ∧
+    admissible [OwnOp.set, .dropState, .cloneOut] = false ∧ admissible ([] : List OwnOp) = true := by decide
+
 end EV
